@@ -176,6 +176,11 @@ func (m *roaManager) HandleROAEvent(ev *roaEvent) {
 		client.state.RpkiMessages = oc.RpkiMessages{}
 		client.conn = nil
 		go client.tryConnect()
+		if client.timer != nil {
+			// a previous disconnection's timer is still pending: it must not expire
+			// the ROAs that a later End of Data confirms.
+			client.timer.Stop()
+		}
 		client.timer = time.AfterFunc(time.Duration(client.lifetime)*time.Second, client.lifetimeout)
 		client.oldSessionID = client.sessionID
 	case roaConnected:
